@@ -517,6 +517,13 @@ def reshape(x, shape, merge_chunks=True, limit=None):
     expr = x.expr
     npartitions = reduce(mul, (len(c) for c in expr.chunks), 1)
     if npartitions == 1:
+        # The one-task reshape below is only valid while the input stays a
+        # single block; pin that layout so a rewrite that re-chunks the input
+        # (e.g. a native sliding-window reduction) is bridged back.
+        from dask_array._expr import ChunksFreeze
+
+        if expr.dependencies():
+            expr = ChunksFreeze(expr, expr.chunks)
         return new_collection(ReshapeLowered(expr, shape, tuple((d,) for d in shape)))
 
     # Handle merge_chunks=False: pre-rechunk to size-1 chunks in early dimensions
